@@ -394,6 +394,23 @@ ROUND10 = {
 for _k, _v in ROUND10.items():
     CLAIMED[_k]["text"] = CLAIMED[_k]["text"] + " " + _v
 
+# sentences added in the eleventh round of seeding
+ROUND11 = {
+    "C01": "The launch veto of _schedule ranges over all predecessors of the component in the graph on every reaching definition.",
+    "C03": "FlowIR's class-level reserved tables are never mutated in place (obligation shared with C09/C11).",
+    "C04": "The fill_in call of get_component_configuration - the detector of undefined variables - is not guarded by a test of the visible variables.",
+    "C06": "The handler that re-wraps foreign exceptions into located errors catches Exception.",
+    "C10": "The character class of the left look-behind is evaluated exactly: it excludes word characters, '.', '#', '/' (and '-') and nothing else.",
+    "C11": "validate_references marks a referenced component as known only under a test of its whole identifier (stage and name).",
+    "C12": "Both restart functions read the configured maximum verbatim (no truthiness default that turns 0 into 'no limit').",
+    "C14": "Status.writeToStream writes every value whole (no slice / length cap); the temporary file of an update carries a per-call unique token.",
+    "C15": "The merge that layers variable files lets the later layer win for every value that is not None (C04 obligations on override_object re-used).",
+    "C17": "Every test of the branch table of environmentWithName sees the name lower-cased.",
+    "C19": "An element of a list that the reader finds by name is updated in place, never replaced.",
+}
+for _k, _v in ROUND11.items():
+    CLAIMED[_k]["text"] = CLAIMED[_k]["text"] + " " + _v
+
 
 def main():
     checks = []
